@@ -392,3 +392,28 @@ class Result:
             return 1
         log("%s %s: OK in %.1fs (states=%d transitions=%d traces=%d)" % (self.prop, self.tier, wall, self.states, self.transitions, self.traces))
         return 0
+
+
+def tlc_conformance(module, cfg, trace_path, xmx="3g", timeout=900):
+    """Blocking-per-run / non-blocking-across-runs trace validation against the ACTIONS of a model (Trace_NgSearch style):
+    returns (runs, drifted ids or None if validation did not complete, states, transitions)."""
+    meta = os.path.join(WORK, "cf_%s_%d" % (cfg.replace(".cfg", ""), os.getpid()))
+    shutil.rmtree(meta, ignore_errors=True)
+    os.makedirs(meta, exist_ok=True)
+    env = dict(os.environ)
+    env["JAVA_TOOL_OPTIONS"] = "-Xss512m -Xms256m -Xmx%s -XX:ParallelGCThreads=1 -Dtlc2.tool.queue.IStateQueue=StateDeque" % xmx
+    env["TRACE"] = trace_path
+    p = run(["timeout", str(timeout), "tlc", "-workers", "1", "-metadir", meta, "-cleanup", "-noGenerateSpecTE", "-config", cfg, module + ".tla"], cwd=SPEC, env=env)
+    shutil.rmtree(meta, ignore_errors=True)
+    ends = [t for t in tlc_tuples(p.stdout) if t and t[0] == "END"]
+    m = None
+    for line in p.stdout.splitlines():
+        mm = FINAL_RE.search(line)
+        if mm:
+            m = mm
+    runs = sum(1 for l in open(trace_path) if '"kind":"start"' in l)
+    if not ends or m is None:
+        return runs, None, 0, 0
+    best = min(ends, key=lambda t: t[1])
+    drifted = re.findall(r'"([^"]+)"', json.dumps(best[2])) if best[1] else []
+    return runs, drifted, int(m.group(2)), int(m.group(1))
